@@ -11,6 +11,10 @@ type Styling interface{ transform(*Style) }
 // StyleText returns a new Text with the given Styling's applied. It does not
 // modify the given Text.
 func StyleText(t Text, ts ...Styling) Text {
+	if len(t) == 0 {
+		// An empty Text is always nil.
+		return nil
+	}
 	newt := make(Text, len(t))
 	for i, seg := range t {
 		newt[i] = StyleSegment(seg, ts...)
